@@ -2,7 +2,7 @@
    lists.  Statements only; every proof is `exact <lemma of Proofs/...>`. *)
 From Coq Require Import List ZArith Arith Bool.
 From PF Require Import Lib.ListX Lib.PySlice Model.Ragged Model.RaggedSpec.
-From PF Require Import Proofs.MntProofs Proofs.MetProofs.
+From PF Require Import Model.RaggedRun Proofs.MntProofs Proofs.MetProofs Proofs.RaggedEntryProofs.
 Import ListNotations.
 
 Section C05.
@@ -169,7 +169,48 @@ Section C05.
       + apply IH; [|exact Hrest]. exact (pick_rect_w_proof A ws m ix d pos Hr Hd E).
       + split; [reflexivity|discriminate].
   Qed.
+
+  (* ------------------------------------------------------------------ *)
+  (* The other public entry points.  narrow(dim, start, length) called directly
+     (start >= 0 is asserted by the code; a window that fits the axis): exactly the
+     contiguous selection range(start, start+length), as a canonical container.
+     A window that overshoots the axis from start > 0 is outside C05's quantifier
+     (narrow is not an IndexSelectType; torch.narrow rejects it, the library does
+     not check) and is not claimed. *)
+  Theorem mnt_narrow_refines : forall (c : nat) (m : cellmat A) (dim start len : nat),
+    rect c m -> dim < 2 ->
+    start + len <= (if dim =? 0 then length m else c) ->
+    narrow A _ (mnt_kernels A) (mnt_of_cells c m) dim start (Z.of_nat len) =
+    Some (mnt_of_cells (if dim =? 0 then c else len) (pick dim (seq start len) m)).
+  Proof. exact (mnt_narrow_refines_proof A). Qed.
+
+  Theorem met_narrow_refines : forall (ws : list nat) (m : cellmat A) (dim start len : nat),
+    rect_w ws m -> dim < 2 ->
+    start + len <= (if dim =? 0 then length m else length ws) ->
+    narrow A _ (met_kernels A) (met_of_cells ws m) dim start (Z.of_nat len) =
+    Some (met_of_cells (pick_ws dim (seq start len) ws) (pick dim (seq start len) m)).
+  Proof. exact (met_narrow_refines_proof A). Qed.
+
+  (* narrow(dim, 0, length >= size) is the container itself (both containers) *)
+  Theorem narrow_whole : forall (T : Type) (K : kernels A T) (t : T) (dim : nat) (len : Z),
+    (Z.of_nat (size A T K t dim) <= len)%Z -> narrow A T K t dim 0 len = Some t.
+  Proof. exact (narrow_whole_proof A). Qed.
+
+  (* a non-positive length selects nothing *)
+  Theorem mnt_narrow_nonpositive : forall (c : nat) (m : cellmat A) (dim start : nat) (len : Z),
+    rect c m -> dim < 2 -> (len <= 0)%Z ->
+    narrow A _ (mnt_kernels A) (mnt_of_cells c m) dim start len =
+    Some (mnt_of_cells (if dim =? 0 then c else 0) (pick dim [] m)).
+  Proof. exact (mnt_narrow_nonpositive_proof A). Qed.
 End C05.
+
+(* the dim argument as Python passes it: 0/-3 rows, 1/-2 columns, everything else
+   (the ragged axis 2/-1 included) raises *)
+Theorem normalize_dim_z_spec : forall d : Z,
+  normalize_dim_z d =
+  if ((d =? 0) || (d =? -3))%Z then Some 0
+  else if ((d =? 1) || (d =? -2))%Z then Some 1 else None.
+Proof. exact normalize_dim_z_spec_proof. Qed.
 
 Print Assumptions batched_arange_docstring.
 Print Assumptions mnt_select_refines.
@@ -184,6 +225,11 @@ Print Assumptions met_get_value_spec.
 Print Assumptions met_getitem_ints.
 Print Assumptions getitem_pair_is_rows_then_cols.
 Print Assumptions met_program_refines.
+Print Assumptions mnt_narrow_refines.
+Print Assumptions met_narrow_refines.
+Print Assumptions narrow_whole.
+Print Assumptions mnt_narrow_nonpositive.
+Print Assumptions normalize_dim_z_spec.
 
 (* ---------------------------------------------------------------------- *)
 (* Non-vacuity: the hypotheses are met by concrete non-trivial states, and the
@@ -228,3 +274,12 @@ Example ex_met_cols :
   select nat _ (met_kernels nat) (met_of_cells [2;1;0] [[[1;2];[3];[]];[[4;5];[6];[]]]) (IList [2%Z; 0%Z; 0%Z]) 1
   = Some (met_of_cells [0;2;2] [[[];[1;2];[1;2]];[[];[4;5];[4;5]]]).
 Proof. vm_compute. reflexivity. Qed.
+
+(* narrow called directly: a window in the middle, the whole axis, a negative length *)
+Example ex_narrow :
+  narrow nat _ (mnt_kernels nat) (mnt_of_cells 2 ex_m) 0 1 2%Z = Some (mnt_of_cells 2 [[[4];[]]; [[];[5;6]]]) /\
+  narrow nat _ (mnt_kernels nat) (mnt_of_cells 2 ex_m) 1 0 9%Z = Some (mnt_of_cells 2 ex_m) /\
+  narrow nat _ (met_kernels nat) (met_of_cells [2;1] [[[1;2];[3]];[[4;5];[6]]]) 1 1 1%Z
+    = Some (met_of_cells [1] [[[3]];[[6]]]) /\
+  narrow nat _ (mnt_kernels nat) (mnt_of_cells 2 ex_m) 0 2 (-1)%Z = Some (mnt_of_cells 2 []).
+Proof. vm_compute. repeat split. Qed.
